@@ -55,6 +55,15 @@ class Perturb:
         if name == "stop_flipped":
             self.stopping = True  # let the backlog drain at full speed once stop() has begun
             return
+        if name == "submit" and self.policy == "slow_start":
+            # AsyncGraph.start() starts the nodes one after another from the user's thread; pausing it before a node's first tick lets the
+            # nodes started earlier run ahead into connections whose receiver has not been started yet
+            import threading
+
+            if ctx["fn"] == "push_scheduled_ts" and threading.current_thread() is threading.main_thread():
+                self.n += 1
+                time.sleep(0.03)
+            return
         if name != "task_start" or self.stopping or self.slept >= self.budget:
             return
         owner = ctx["owner"]
@@ -98,11 +107,12 @@ def async_schedules(seed, nsteps=10, tie=False, variants=None, family="random"):
     if family == "tie_advance" and variants is None:
         variants = [dict(policy="none", rtf=0, api="run"), dict(policy="starve", rtf=0, api="run", target="n1"), dict(policy="starve", rtf=0, api="step", target="n2"),
                     dict(policy="starve", rtf=0, api="run", target="n1->n2"), dict(policy="slow_ts_input", rtf=0, api="step"), dict(policy="slow_conns", rtf=0, api="run"),
-                    dict(policy="slow_nodes", rtf=0, api="run"), dict(policy="random", rtf=0, api="step")]
+                    dict(policy="slow_nodes", rtf=0, api="run"), dict(policy="random", rtf=0, api="step"), dict(policy="slow_start", rtf=0, api="run")]
     if variants is None:
         variants = [dict(policy="none", rtf=0, api="run"), dict(policy="random", rtf=0, api="step"), dict(policy="slow_conns", rtf=0, api="run"),
                     dict(policy="slow_nodes", rtf=0, api="step"), dict(policy="starve", rtf=0, api="run", target=rng.choice(labels)),
-                    dict(policy="slow_ts_input", rtf=0, api="run"), dict(policy="none", rtf=20, api="step"), dict(policy="switch", rtf=0, api="run")]
+                    dict(policy="slow_ts_input", rtf=0, api="run"), dict(policy="none", rtf=20, api="step"), dict(policy="switch", rtf=0, api="run"), dict(policy="slow_start", rtf=0, api="step"),
+                    dict(policy="slow_start", rtf=0, api="run")]
     out = dict(spec=spec, feats=sorted(rt.spec_features(spec)), variants=[], cfg=None)
     old_si = sys.getswitchinterval()
     counts = {n["name"]: 0 for n in spec["nodes"]}
@@ -211,14 +221,14 @@ def _calls_snapshot():
     return snap
 
 
-def calls_case(seed, nsteps=8):
+def calls_case(seed, nsteps=8, spec_kind="random"):
     """C06: host-side call counters of the probe nodes in both runtimes."""
     import jax
     import numpy as onp
     from rex import base
 
     rng = random.Random(seed)
-    spec = rt.rand_spec(rng)
+    spec = _spec_of(rng, spec_kind)
     jit_step = rng.random() < 0.6
     out = dict(spec=spec, feats=sorted(rt.spec_features(spec)), jit_step=jit_step, async_eps=[], compiled=[])
     run = rt.AsyncRun(spec, count_calls=True, jit_step=jit_step)
@@ -226,11 +236,16 @@ def calls_case(seed, nsteps=8):
     Probe, PParams, PState, POut = None, None, None, None
     recs = []
     gs_prev = None
-    for e, api in enumerate(["run", "step_override", "run_carried_over"]):
+    for e, api in enumerate(["run", "step_override", "run_carried_over", "run_short"]):
         overridden = []
+        ep_steps = nsteps
         if api == "run":
             rec, obs, gs = run.episode(nsteps, eps=e, api="run")
             gs_prev = gs
+        elif api == "run_short":
+            # a second, shorter recorded episode: the compiled horizon is the shorter one's
+            ep_steps = max(2, nsteps - rng.randint(2, 3))
+            rec, obs, gs = run.episode(ep_steps, eps=1, api="run")
         elif api == "run_carried_over":
             # a new episode started from the graph state the previous episode returned (sequence numbers != 0)
             rec, obs, gs = run.episode(nsteps, eps=e, api="run", gs0=gs_prev)
@@ -238,8 +253,7 @@ def calls_case(seed, nsteps=8):
             def ov(k, ss):
                 if k % 2 == 1:
                     overridden.append(int(ss.seq))
-                    out_cls = type(run.sup.init_output())
-                    return ss, out_cls(y=jax.numpy.array(7 + k, dtype=jax.numpy.int32))
+                    return ss, rt.make_out(run.sup, 7 + k)
                 return None
 
             # reset/step with every second supervisor step overridden by the user
@@ -255,8 +269,8 @@ def calls_case(seed, nsteps=8):
             rec = rt.safe_get_record(run.graph)
         calls = _calls_snapshot()
         d = rt.episode_record_to_dict(rec)
-        out["async_eps"].append(dict(api=api, calls=calls, seqs={n: d[n]["seq"] for n in d}, outputs_len={n: len(d[n].get("output", [])) for n in d}, overridden=overridden, nsteps=nsteps))
-        if api == "run":
+        out["async_eps"].append(dict(api=api, calls=calls, seqs={n: d[n]["seq"] for n in d}, outputs_len={n: len(d[n].get("output", [])) for n in d}, overridden=overridden, nsteps=ep_steps))
+        if api in ("run", "run_short"):
             try:
                 recs.append(run.graph.get_record())
             except TypeError:
@@ -285,7 +299,7 @@ def calls_case(seed, nsteps=8):
         for k in range(nrun):
             if k % 2 == 1:
                 ov.append(int(ss.seq))
-                s3, ss = g.step(s3, ss, type(run.sup.init_output())(y=jax.numpy.array(5 + k, dtype=jax.numpy.int32)))
+                s3, ss = g.step(s3, ss, rt.make_out(run.sup, 5 + k))
             else:
                 s3, ss = g.step(s3)
         calls_step = _calls_snapshot()
@@ -304,7 +318,14 @@ def calls_case(seed, nsteps=8):
         for _ in range(nrun):
             s6 = g.run(s6)
         calls_reused = _calls_snapshot()
-        out["compiled"].append(dict(mode=mode, timings=tim, nrun=nrun, calls_run=calls_run, calls_rollout=calls_roll, calls_step=calls_step, overridden=ov, calls_first=calls_first,
+        # (g) the whole horizon on the second (shorter) recorded episode
+        calls_short = None
+        if len(recs) >= 2:
+            s7 = g.init(rng=jax.random.PRNGKey(spec["seed"]), starting_eps=1)
+            for _ in range(g.max_steps):
+                s7 = g.run(s7)
+            calls_short = _calls_snapshot()
+        out["compiled"].append(dict(mode=mode, calls_short=calls_short, horizon=int(g.max_steps), timings=tim, nrun=nrun, calls_run=calls_run, calls_rollout=calls_roll, calls_step=calls_step, overridden=ov, calls_first=calls_first,
                                     k0=k0, n_late=n_e, calls_late=calls_late, calls_reused=calls_reused, sup=spec["supervisor"]))
     return out
 
